@@ -95,7 +95,8 @@ def generate(streams, tier):
         menu = ["ve_query", "ve_map", "bp_query", "bp_map", "bp_calibrate", "score", "local_score", "mle", "bayes_est", "fit_copy",
                 "hill_climb", "pc", "write_bif", "write_xmlbif", "write_uai", "write_net", "to_markov", "to_junction", "mn_convert",
                 "forward_sample", "rejection_sample", "lw_sample", "predict", "causal_query", "state_prob", "do", "gibbs", "simulate",
-                "tree_search", "exhaustive", "em", "fit_update", "get_random_cpds", "copy"]
+                "tree_search", "exhaustive", "em", "fit_update", "get_random_cpds", "copy", "mn_ve_query", "mn_bp_query", "fg_bp_query", "jt_bp_query",
+                "mn_map", "elimination_order", "markov_blanket_etc"]
         ops = []
         ref = RefJoint.from_bn(world)
         for _ in range(rw.randint(3, 8)):
@@ -138,6 +139,8 @@ def describe(case):
 
 def execute(case, ctx):
     ctx.event("mode", case["mode"])
+    _n0 = Names(case["world"])
+    ctx.sig_order("labels", [_n0.lab2idx[x] for x in set(_n0.labels)])
     {"history": execute_history, "purity": execute_purity, "twin": execute_twin}[case["mode"]](case, ctx)
 
 
@@ -431,6 +434,47 @@ def _purity_call(name, op, world, names, model, df, q, ev, virt, args, ctx):
                 kw["elimination_order"] = [None, "greedy", "MinFill", "MinWeight"][opt % 4]
             return lambda: Eng(model).query(q_arg, evidence=ev_arg, joint=opt % 3 != 0, show_progress=False, **kw)
         return lambda: Eng(model).map_query(q_arg, evidence=ev_arg, show_progress=False, **kw)
+    if name in ("mn_ve_query", "mn_bp_query", "fg_bp_query", "jt_bp_query", "mn_map"):
+        # inference on the undirected counterparts of the model: the Markov network / factor graph / junction tree must stay as they were
+        mn = model.to_markov_model()
+        if name == "fg_bp_query":
+            from pgmpy.models import FactorGraph
+
+            target = FactorGraph()
+            target.add_nodes_from(mn.nodes())
+            for f in mn.factors:
+                target.add_node(f)
+                target.add_edges_from([(x, f) for x in f.variables])
+            target.add_factors(*mn.factors)
+            snap = lambda g: {"factors": snapshot_factor_list(g.factors), "n_nodes": g.number_of_nodes(), "n_edges": g.number_of_edges()}
+        elif name == "jt_bp_query":
+            target = mn.to_junction_tree()
+            snap = lambda g: {"nodes": sorted(repr(sorted(map(repr, c))) for c in g.nodes()), "edges": g.number_of_edges(), "factors": snapshot_factor_list(g.factors)}
+        else:
+            target = mn
+            snap = snapshot_mn
+        args["undirected_model"] = (target, snap)
+        ev_arg = dict(evv) if evv else None
+        if name == "mn_ve_query":
+            return lambda: VariableElimination(target).query(list(qq), evidence=ev_arg, show_progress=False)
+        if name == "mn_map":
+            return lambda: VariableElimination(target).map_query(list(qq), evidence=ev_arg, show_progress=False)
+        return lambda: BeliefPropagation(target).query(list(qq), evidence=ev_arg, joint=opt % 2 == 0, show_progress=False)
+    if name == "elimination_order":
+        from pgmpy.inference.EliminationOrder import MinFill, MinNeighbors, MinWeight, WeightedMinFill
+
+        Cls = [MinFill, MinNeighbors, MinWeight, WeightedMinFill][opt % 4]
+        nodes = [L(v) for v in range(world["n"]) if v not in q]
+        return lambda: Cls(model).get_elimination_order(nodes=nodes, show_progress=False)
+    if name == "markov_blanket_etc":
+        def f():
+            model.get_markov_blanket(qq[0])
+            model.get_independencies()
+            model.moralize()
+            model.get_ancestral_graph(list(qq))
+            model.is_dconnected(qq[0], L((q[0] + 1) % world["n"]), observed=list((evv or {}).keys()))
+            model.get_immoralities()
+        return f
     if name == "bp_calibrate":
         def f():
             bp = BeliefPropagation(model)
